@@ -271,8 +271,17 @@ func cloneCase(r *rng.R, opt genOpt) sexp.Node {
 		data, nerr = introspectJSON(s2, fs)
 	}
 	fillE2E(gs, data)
-	mutateEverything(clone)
-	g0after := gabs(ids, def)
+	// everything mutable in the clone is changed; the original must still be what it was.  (If the
+	// clone aliases the original the walk itself may hit the damage: that is reported as such.)
+	g0after := func() (n sexp.Node) {
+		defer func() {
+			if e := recover(); e != nil {
+				n = sexp.T("broken")
+			}
+		}()
+		mutateEverything(clone)
+		return gabs(ids, def)
+	}()
 	return sexp.T("case", sexp.Sym("clone"),
 		sexp.T("schema", gs.sexp()), sexp.T("features", names(fs)),
 		sexp.T("orig", g0), sexp.T("clone", g1), sexp.T("orig-after", g0after),
